@@ -180,3 +180,11 @@ def rules(t, *a, **kw):
     out = _rules_C17_w7(t, *a, **kw)
     shared.share(t, out, "C17.j", "a connection request is answered only after its sealed token was opened with the request's own public fields as associated data (a retry is not trusted because its MAC bytes look familiar)", "C05", ("C05.a4",))
     return out
+
+
+_rules_C17_bw = rules
+def rules(t, *a, **kw):
+    import rules.bytewidth as BW
+    out = _rules_C17_bw(t, *a, **kw)
+    out.append(BW.byte_width_rule(t, "C17.k"))
+    return out
